@@ -6,7 +6,7 @@
    point (c,s) of the unit circle; float cos/sin of the code are idealised.  Negative scale
    factors are outside the property. *)
 From Coq Require Import List.
-From SV Require Import Spec.Spec Model.Heap Lemmas.HeapFacts Lemmas.Equivariance.
+From SV Require Import Spec.Spec Model.Heap Lemmas.HeapFacts Lemmas.Equivariance Lemmas.Affine.
 Open Scope Q_scope.
 
 (* object level, every history: the transformed variable denotes the image under the map of
@@ -42,6 +42,14 @@ Theorem C09_region_scale : forall sx sy sh p, 0 < sx -> 0 < sy -> chains_ok (jor
   region (map_points (scale_pt sx sy) sh) (scale_pt sx sy p) = region sh p.
 Proof. exact region_scale_pt. Qed.
 Print Assumptions C09_region_scale.
+Theorem C09_region_rotate : forall c s sh p, c * c + s * s == 1 -> chains_ok (jordans sh) ->
+  region (map_points (rot_pt c s) sh) (rot_pt c s p) = region sh p.
+Proof. exact region_rot_pt. Qed.
+(* point reflections and any pair of non-zero factors of equal sign *)
+Theorem C09_region_scale_signed : forall sx sy sh p, 0 < sx * sy -> chains_ok (jordans sh) ->
+  region (map_points (scale_pt sx sy) sh) (scale_pt sx sy p) = region sh p.
+Proof. exact region_scale_pt'. Qed.
+Print Assumptions C09_region_rotate.
 (* area is |det T| times the old one; moments transform accordingly *)
 Theorem C09_area : forall m11 m12 m21 m22 v f, aff_map m11 m12 m21 m22 v f ->
   forall s, shape_lines s = true -> (forall j, In j (jordans s) -> closed_chain j = true) ->
